@@ -1,11 +1,14 @@
 #define WF_USTACK (0 <= stack.top1 && stack.top1 <= stack.top2 && stack.top2 <= stack.size && stack.used == stack.top1 + (stack.size - stack.top2))
-#define BIG 1073741824
 /* instantiation of specs/expand_first.spec for the unit that proves it on the real p?gstrf_expand */
 #define EXP_TABLE_OK (@p@expanders == in_exp)
 #define EXP_LEN_OK (prev_len == &in_len)
+
+/* ---- instantiation of specs/expand_first.spec, user-workspace part (b = bytes requested, pad = alignment pad needed) */
 #define LWORD(t) (((t) == LSUB || (t) == USUB) ? (int_t)sizeof(int_t) : (int_t)sizeof(@T@))
-#define EXP_USTACK_PRE (0 <= g_skew && g_skew <= 7 && stack.array == (void*)(in_work + g_skew) && 0 <= stack.top1 && stack.top1 <= WCAP - 16 && 0 <= stack.top2 && stack.top2 <= stack.size && stack.size <= WCAP - 16 && stack.used == stack.top1 + (stack.size - stack.top2))
-/* what a successful first request in user-workspace mode guarantees: block of b bytes at the old top1, moved up by at most 7 bytes for alignment */
+#define EXP_USTACK_WF (0 <= stack.top1 && stack.top1 <= stack.top2 && stack.top2 <= stack.size && stack.size <= WCAP - 16 && stack.used == stack.top1 + (stack.size - stack.top2))
+#define EXP_USTACK_PRE (0 <= g_skew && g_skew <= 7 && stack.array == (void*)(in_work + g_skew) && EXP_USTACK_WF)
 #define EXP_B ((*prev_len) * LWORD(type))
-#define EXP_X (stack.top1 - OLD(stack.top1) - EXP_B)
-#define EXP_USTACK_POST (0 <= stack.top1 && stack.top1 <= 16777216 && -16777216 <= stack.used && stack.used <= 16777216 && EXP_B + OLD(stack.used) < stack.size && 0 <= EXP_X && EXP_X <= 7 && stack.used == OLD(stack.used) + EXP_B + EXP_X && RET == (void*)(in_work + g_skew + OLD(stack.top1) + EXP_X) && ((type == LSUB || type == USUB) ==> EXP_X == 0) && ((type == LUSUP || type == UCOL) ==> ((OLD(stack.top1) + EXP_X + g_skew) & 7) == 0) && OLD(stack.top1) + EXP_B < stack.top2)
+#define EXP_PAD (((type) == LUSUP || (type) == UCOL) ? ((8 - ((OLD(stack.top1) + g_skew) & 7)) & 7) : 0)
+#define EXP_NO_ROOM (EXP_B + EXP_PAD + OLD(stack.used) >= stack.size)
+#define EXP_USTACK_FAILED ((stack.top1 == OLD(stack.top1) && stack.used == OLD(stack.used)) || (EXP_B + OLD(stack.used) < stack.size && EXP_PAD > 0 && stack.top1 == OLD(stack.top1) + EXP_B && stack.used == OLD(stack.used) + EXP_B))
+#define EXP_USTACK_POST (0 <= stack.top1 && stack.top1 <= 16777216 && -16777216 <= stack.used && stack.used <= 16777216 && stack.top1 == OLD(stack.top1) + EXP_B + EXP_PAD && stack.used == OLD(stack.used) + EXP_B + EXP_PAD && RET == (void*)(in_work + g_skew + OLD(stack.top1) + EXP_PAD) && ((type == LUSUP || type == UCOL) ==> ((OLD(stack.top1) + EXP_PAD + g_skew) & 7) == 0) && stack.top1 < stack.top2)
